@@ -853,3 +853,26 @@ def rule_nested_throw_keeps_value(ctx, rep, rid: str) -> None:
                     rep.bad(rid, key, f"{m.qual} turns every JSError that reaches it from a native into a NEW error object made from its name and message: the value an eval()ed program threw and did not catch is replaced on its way to the outer handler", f"{m.module.rel}:{h.lineno}")
     if n == 0:
         rep.ok(rid, "no-JSError-handler", {"note": "no run-loop wrapper converts a JSError coming out of a native into a script error: nothing rebuilds the value here (whether such errors are catchable at all is C07-R5's obligation)"})
+
+
+def rule_location_of_the_executing_instruction(ctx, rep, rid: str) -> None:
+    """The run loops advance frame.ip past an instruction (and its operand) before they execute it.  A lookup of the
+    source location that walks back from frame.ip itself starts at the FIRST instruction of what follows: if that is a
+    statement with a location of its own (the next throw), the error gets the wrong line."""
+    rep.rule(rid, "the lookup of the source location of a throw starts below the current frame.ip (the instruction being executed), never at frame.ip itself, which the run loop has already advanced", floor=1)
+    vmcls = ctx.facts.vm_dispatcher()[0].cls
+    n = 0
+    for m in vmcls.all_methods:
+        if isinstance(m.node, ast.Lambda):
+            continue
+        for loop in m.own_nodes():
+            if isinstance(loop, ast.For) and isinstance(loop.iter, ast.Call) and norm(loop.iter.func) == "range" and loop.iter.args and any("source_map" in norm(x) for b in loop.body for x in ast.walk(b) if isinstance(x, (ast.Compare, ast.Subscript))):
+                n += 1
+                key = f"{m.qual}:walk-from"
+                start = loop.iter.args[0]
+                if norm(start).endswith(".ip"):
+                    rep.bad(rid, key, f"{m.qual} walks the source map back from `{norm(start)}`: the run loop has advanced the instruction pointer past the instruction that throws, so the entry of the NEXT statement is found when it has one - `if (c) throw new Error('a'); throw new Error('b')` stamps the first error with the second line", f"{m.module.rel}:{loop.lineno}")
+                else:
+                    rep.ok(rid, key, {"from": norm(start)})
+    if n == 0:
+        raise AnalysisError(f"{rid}: the source-map walk of the interpreter was not found")
